@@ -184,6 +184,32 @@ def r08_2(run):
                 fin_colls |= _rev_aliases(fi.node, c.args[2].id)
         if not fins:
             raise AnalysisError(f"{fi.short}: no weakref.finalize registration found")
+        # what flows into the finalized collection when it is *built*: names poured in (WeakRefIterable(xs), (*xs, e), list(xs), xs + [e]) and
+        # the element expressions written into the literal -- `WeakRefIterable((*unique_arrs, tensor.data))` registers both
+        flow_names: Set[str] = set(fin_colls)
+        lit_elems: Dict[str, ast.AST] = {}
+        def _pour(e, st_):
+            if isinstance(e, ast.Name):
+                flow_names.add(e.id)
+            elif isinstance(e, ast.Starred):
+                _pour(e.value, st_)
+            elif isinstance(e, (ast.Tuple, ast.List, ast.Set)):
+                for x_ in e.elts:
+                    if isinstance(x_, ast.Starred):
+                        _pour(x_.value, st_)
+                    else:
+                        lit_elems[norm(x_)] = st_
+            elif isinstance(e, ast.Call) and e.args and (dotted(e.func) or "").split(".")[-1] in ("WeakRefIterable", "list", "tuple"):
+                _pour(e.args[0], st_)
+            elif isinstance(e, ast.BinOp) and isinstance(e.op, ast.Add):
+                _pour(e.left, st_)
+                _pour(e.right, st_)
+        for _round in range(3):
+            for n_ in own_nodes(fi.node):
+                if isinstance(n_, ast.Assign) and assigned_name(n_) in flow_names:
+                    _pour(n_.value, n_)
+        for c_ in fins:
+            _pour(c_.args[2], stmt_of(c_))
         for c in calls_named(fi.node, "lock_arr_writeability"):
             st = stmt_of(c)
             par = getattr(c, "_parent", None)
@@ -191,7 +217,7 @@ def r08_2(run):
             def _reaches_finalize(nm):
                 if nm is None:
                     return False
-                if nm in fin_colls:
+                if nm in fin_colls or nm in flow_names:
                     return True
                 # or wrapped: tensor_refs = WeakRefIterable(unique_arrs)
                 for n in own_nodes(fi.node):
@@ -225,6 +251,10 @@ def r08_2(run):
                     n = cfg.stmt_node_containing(a)
                     if n is not None:
                         apps.add(n)
+            if E in lit_elems:
+                n_ = cfg.stmt_node_containing(lit_elems[E]) if lit_elems[E] is not None else None
+                if n_ is not None:
+                    apps.add(n_)   # written into the collection where it is built
             w = None
             ok = False
             if ln is not None and cfg.reachable(ln):
